@@ -74,6 +74,10 @@ CLAIMED = {
          "The statement is value-level and is not decided as a whole. Decided are eight structural necessary conditions; each one, when broken, makes some decoded value differ from its wire value (wrong byte order, wrong width or setter, missing sign extension, write to the wrong struct field, unread bytes, skipped developer section, aliasing the scratch buffer, destroyed narrow big-endian fields).",
          "Trusted: evaluator transfer functions; reflect setter semantics; builtin copy. Not decided: equality of every decoded value with its wire value; narrow-coordinate sign padding; string termination; developer-field content.",
          "DESIGN.md 4 C02"),
+ "C01": ("other", "exact folding of validateFieldDef over the complete (profile class x base byte x size) product joined with the consumer arms; panic-site census discharged by an interval analysis with guard refinement, range-loop semantics, table obligations and a frozen audited list; loop census; call-graph closure",
+         "The exhaustive single-field-definition clause is decided exactly (1.9 M validator points, every accepted point held against its consuming arm). For the rest, every potential panic site and every loop in the functions reachable from the five entry points is enumerated and must carry a discharge; an undischarged site or unclassified loop is reported with its call path. Hanging readers that violate the io.Reader contract, stdlib-internal panics and memory exhaustion are outside.",
+         "Trusted: evaluator/interval transfer functions; documented reflect and encoding/binary panic conditions; <= 12 audited sites, each with its reason in checker/c01.go; nil-dereference freedom is covered only by the targeted guard rules (definition slot, profile row, logger, constructor table), not by a general nilness analysis.",
+         "DESIGN.md 4 C01"),
 }
 
 NOT_APPLICABLE = {
